@@ -781,4 +781,92 @@ theorem attestation_window_eq (cfg : Config) (s : State) (data : AttestationData
   rw [spec_timing_iff cfg s data hcur hmin]
   exact attestationTiming_eq _ _ _ _ _ _ hspe hmin hcur
 
+/-! ### the spec's `sorted(set(a).intersection(b))` for ARBITRARY lists -/
+
+theorem mem_insertSortedUniq (x y : Nat) : ∀ l : List Nat, y ∈ Block.insertSortedUniq x l ↔ y = x ∨ y ∈ l := by
+  intro l
+  induction l with
+  | nil => simp [Block.insertSortedUniq]
+  | cons z zs ih =>
+    unfold Block.insertSortedUniq
+    by_cases h1 : x < z
+    · simp [h1]
+    · by_cases h2 : x = z
+      · subst h2; simp
+      · simp only [h1, h2, if_false, List.mem_cons, ih]
+        constructor
+        · rintro (h | h | h)
+          · exact Or.inr (Or.inl h)
+          · exact Or.inl h
+          · exact Or.inr (Or.inr h)
+        · rintro (h | h | h)
+          · exact Or.inr (Or.inl h)
+          · exact Or.inl h
+          · exact Or.inr (Or.inr h)
+
+theorem sorted_insertSortedUniq (x : Nat) : ∀ l : List Nat, l.Pairwise (· < ·) →
+    (Block.insertSortedUniq x l).Pairwise (· < ·) := by
+  intro l
+  induction l with
+  | nil => intro _; simp [Block.insertSortedUniq]
+  | cons z zs ih =>
+    intro h
+    have hp := List.pairwise_cons.mp h
+    unfold Block.insertSortedUniq
+    by_cases h1 : x < z
+    · simp only [h1, if_true]
+      apply List.pairwise_cons.mpr
+      refine ⟨?_, h⟩
+      intro a ha
+      rcases List.mem_cons.mp ha with rfl | ha'
+      · exact h1
+      · exact Nat.lt_trans h1 (hp.1 a ha')
+    · by_cases h2 : x = z
+      · subst h2
+        have : ¬ x < x := Nat.lt_irrefl x
+        simp only [this, if_false, if_true]; exact h
+      · simp only [h1, h2, if_false]
+        apply List.pairwise_cons.mpr
+        refine ⟨?_, ih hp.2⟩
+        intro a ha
+        rcases (mem_insertSortedUniq x a zs).mp ha with rfl | ha'
+        · omega
+        · exact hp.1 a ha'
+
+theorem foldl_insert_spec : ∀ (l acc : List Nat), acc.Pairwise (· < ·) →
+    (l.foldl (fun acc x => Block.insertSortedUniq x acc) acc).Pairwise (· < ·) ∧
+    ∀ y, y ∈ l.foldl (fun acc x => Block.insertSortedUniq x acc) acc ↔ y ∈ acc ∨ y ∈ l := by
+  intro l
+  induction l with
+  | nil => intro acc h; simp [h]
+  | cons x xs ih =>
+    intro acc h
+    simp only [List.foldl_cons]
+    obtain ⟨h1, h2⟩ := ih (Block.insertSortedUniq x acc) (sorted_insertSortedUniq x acc h)
+    refine ⟨h1, ?_⟩
+    intro y
+    rw [h2 y, mem_insertSortedUniq]
+    simp only [List.mem_cons]
+    constructor
+    · rintro ((h | h) | h)
+      · exact Or.inr (Or.inl h)
+      · exact Or.inl h
+      · exact Or.inr (Or.inr h)
+    · rintro (h | h | h)
+      · exact Or.inl (Or.inr h)
+      · exact Or.inl (Or.inl h)
+      · exact Or.inr h
+
+/-- `Block.sortedIntersection a b` IS `sorted(set(a).intersection(b))` for all lists: strictly increasing,
+and its members are exactly the common members. -/
+theorem sortedIntersection_spec (a b : List Nat) :
+    (Block.sortedIntersection a b).Pairwise (· < ·) ∧
+    ∀ y, y ∈ Block.sortedIntersection a b ↔ y ∈ a ∧ y ∈ b := by
+  unfold Block.sortedIntersection
+  obtain ⟨h1, h2⟩ := foldl_insert_spec (a.filter (b.contains ·)) [] List.Pairwise.nil
+  refine ⟨h1, ?_⟩
+  intro y
+  rw [h2 y]
+  simp [List.mem_filter]
+
 end Zrnt.Proofs.BeaconBlock
